@@ -47,7 +47,7 @@ def gen(rng, idx, tier):
             beh["store"] = ["ok", "ok"]
         if op == "move":
             beh["dest"] = "ok"
-    return {"op": op, "beh": beh, "msg_id": rng.choice([1, 9, 300]), "max_pdu": rng.choice([0, 128, 16382]),
+    return {"op": op, "beh": beh, "msg_id": rng.choice([0, 1, 9, 300]), "max_pdu": rng.choice([0, 128, 16382]),
             "sched": {"switch_pct": rng.choice([5, 30])}, "net": C.gen_net(rng)}
 
 
